@@ -895,6 +895,39 @@ theorem matchIdx_nearest (diff off : ℝ) (s l : List ℝ) (i j : Nat) (h : (i, 
         exact hmin _ (List.mem_of_getElem? (hrow k hk))
     · simp [lt_real, hlt] at hval
 
+/-- **Exact ties and the boundary of the threshold** (pass 4, class 20): among equally near stamps the FIRST one is taken —
+every earlier stamp of `l` is strictly farther — and a stamp exactly `diff` away is not matched (`<` is strict). -/
+theorem matchIdx_first_on_ties (diff off : ℝ) (s l : List ℝ) (i j : Nat) (h : (i, j) ∈ matchIdx diff off s l) :
+    ∃ (hi : i < s.length) (hj : j < l.length),
+      (∀ (k : Nat) (hk : k < l.length), k < j → |s[i] - (l[j] + off)| < |s[i] - (l[k] + off)|) ∧
+      |s[i] - (l[j] + off)| ≠ diff := by
+  obtain ⟨hi, hj, hlt, _⟩ := matchIdx_nearest diff off s l i j h
+  refine ⟨hi, hj, ?_, ne_of_lt hlt⟩
+  unfold matchIdx at h
+  obtain ⟨⟨si, i'⟩, hmem, hval⟩ := List.mem_filterMap.mp h
+  obtain ⟨_, hsi⟩ := List.mem_zipIdx' hmem
+  simp only at hval
+  cases ha : argmin? (absDiffRow si off l) with
+  | none => simp [ha] at hval
+  | some vj =>
+    obtain ⟨v, j'⟩ := vj
+    simp only [ha] at hval
+    by_cases hv : v < diff
+    · simp only [lt_real, hv, decide_true, if_true, Option.some.injEq, Prod.mk.injEq] at hval
+      obtain ⟨rfl, rfl⟩ := hval
+      obtain ⟨hjl, hjv, _⟩ := argmin?_spec _ v j' ha
+      have hrow : ∀ (k : Nat) (hk : k < l.length), (absDiffRow si off l)[k]? = some |si - (l[k] + off)| := by
+        intro k hk
+        simp [absDiffRow, hk, sabs_real]
+      have hveq : v = |si - (l[j'] + off)| := by
+        have := hrow j' hj
+        rw [hjv] at this
+        exact Option.some.inj this
+      intro k hk hkj
+      have := argmin?_first _ v j' ha k _ (hrow k hk) hkj
+      rw [← hsi, ← hveq]; exact this
+    · simp [lt_real, hv] at hval
+
 /-- association only looks at the stamps: mapping the poses commutes with it -/
 theorem associate_map (diff off : ℝ) (rs es : List ℝ) (rp ep : List (SE3 ℝ)) (f g : SE3 ℝ → SE3 ℝ) :
     associate diff off rs (rp.map f) es (ep.map g)
